@@ -21,8 +21,10 @@ import (
 )
 
 const (
-	nSlots = 6 // plan interpreter instances: 0..2 deployed at set-up, 3..5 deployable by plans
-	nBase  = 3
+	nSlots      = 6 // plan interpreter instances: 0..2 deployed at set-up, 3..5 deployable by plans
+	nBase       = 3
+	nDummies    = 5 // accounts that only exist to be blocked / unblocked
+	nPreBlocked = 3 // the last ones are blocked at set-up
 )
 
 // world is a pair of chains with identical history: A executes the
@@ -60,6 +62,15 @@ func (w *world) close() {
 // vchain.BuildHistory (10 funded users, 8 candidates, 8 voters above the
 // turnout threshold) followed by the deployment and funding of the plan
 // interpreter contracts.
+// nodeError marks a set-up failure that is a misbehaviour of the node (the
+// set-up is a fixed script that passes on a correct node), not of the harness.
+type nodeError struct {
+	kind string
+	err  error
+}
+
+func (e *nodeError) Error() string { return e.kind + ": " + e.err.Error() }
+
 func newWorld(t testing.TB, idx int) (w *world, err error) {
 	defer func() {
 		if x := recover(); x != nil {
@@ -71,7 +82,7 @@ func newWorld(t testing.TB, idx int) (w *world, err error) {
 	w.A = w.h.P
 	w.proto = w.h.PName
 	if w.A.Rejected != nil {
-		return w, w.A.Rejected
+		return w, &nodeError{"producer-rejected-own-block", w.A.Rejected}
 	}
 	w.nonce = 1 << 20
 	p := w.A
@@ -91,23 +102,30 @@ func newWorld(t testing.TB, idx int) (w *world, err error) {
 	}
 	for k := 0; k < 3; k++ {
 		w.sinks = append(w.sinks, util.Uint160{0xe0 + byte(k), 0x51})
-		w.dummies = append(w.dummies, util.Uint160{0xd0 + byte(k), 0x77})
+	}
+	for k := 0; k < nDummies; k++ {
+		// interleaved with the contract hashes in the sorted list of blocked accounts
+		w.dummies = append(w.dummies, util.Uint160{0x18 + 0x30*byte(k), 0x77})
 	}
 	for k := 0; k < 6; k++ {
 		w.roleKeys = append(w.roleKeys, vchain.DetKey("role", k).PublicKey().Bytes())
 	}
-	// set-up block 1: cheap candidate registration, base contracts
+	// set-up block 1 (height 5, still the standby committee): cheap candidate
+	// registration, some blocked accounts, base contracts
 	var txs []*transaction.Transaction
 	cs := w.committee()
 	if cs == nil {
 		return w, fmt.Errorf("no committee signer")
 	}
 	txs = append(txs, p.Call("setup-register-price", cs, p.NeoH, "setRegisterPrice", int64(1000_0000)))
+	for k := nDummies - nPreBlocked; k < nDummies; k++ {
+		txs = append(txs, p.Call("setup-block-account", cs, p.PolH, "blockAccount", w.dummies[k]))
+	}
 	for s := 0; s < nBase; s++ {
 		txs = append(txs, p.Call("setup-deploy", []neotest.Signer{u0.S}, p.MgmtH, "deploy", w.nef[1], w.man[s][1], nil))
 	}
 	if p.AddBlock(txs...) == nil {
-		return w, p.Rejected
+		return w, &nodeError{"producer-rejected-own-block", p.Rejected}
 	}
 	// set-up block 2: the contracts get GAS and NEO
 	txs = nil
@@ -117,12 +135,12 @@ func newWorld(t testing.TB, idx int) (w *world, err error) {
 		txs = append(txs, p.Call("setup-fund-neo", []neotest.Signer{u.S}, p.NeoH, "transfer", u.Hash(), w.slotHash[s], int64(20000+7000*s), nil))
 	}
 	if p.AddBlock(txs...) == nil {
-		return w, p.Rejected
+		return w, &nodeError{"producer-rejected-own-block", p.Rejected}
 	}
 	for _, kl := range p.KindLog[len(p.KindLog)-2:] {
 		for _, k := range kl {
 			if !strings.HasSuffix(k, ":HALT") {
-				return w, fmt.Errorf("set-up transaction failed: %s", k)
+				return w, &nodeError{"set-up-transaction-faulted:" + strings.TrimSuffix(k, ":FAULT"), fmt.Errorf("a set-up transaction that halts on a correct node faulted (it was test-invoked before being sealed): %s", k)}
 			}
 		}
 	}
@@ -139,7 +157,7 @@ func newWorld(t testing.TB, idx int) (w *world, err error) {
 			return w, err
 		}
 		if err := bc.AddBlock(b); err != nil {
-			return w, fmt.Errorf("twin rejects set-up block %d: %w", i+1, err)
+			return w, &nodeError{"twin-rejects-set-up-block", fmt.Errorf("block %d: %w", i+1, err)}
 		}
 	}
 	w.opts = p.ObsOpts()
@@ -150,7 +168,7 @@ func newWorld(t testing.TB, idx int) (w *world, err error) {
 	w.opts.Accounts = append(w.opts.Accounts, w.sinks...)
 	w.opts.Accounts = append(w.opts.Accounts, w.dummies...)
 	if d := w.obsA().Diff(w.obsB()); d != "" {
-		return w, fmt.Errorf("twin differs after set-up: %s", d)
+		return w, &nodeError{"twin-differs-after-set-up", fmt.Errorf("%s", d)}
 	}
 	return w, nil
 }
